@@ -101,6 +101,42 @@ def r15_1(ctx):
               "the script executor takes the skip code from the compiled test case (all test cases agree on it)",
               "script executor skip code source: %s" % [x.show()[:80] for x in srcs])
 
+    # .. and compile_testcase carries the test cases' skip code into that compiled config
+    ct = prog.fn("compile_testcase")
+    oc = Origins(ct)
+    stores = []
+    for bi, b in enumerate(ct.blocks):
+        if b["cleanup"]:
+            continue
+        for si, st_ in enumerate(b["stmts"]):
+            if st_["k"] == "assign" and st_["lhs"]["p"] and st_["lhs"]["p"][-1].get("n") == "skip_document_code" and not any("deref" in str(x) for x in st_["lhs"]["p"][:1]):
+                stores.append((bi, si, oc.rvalue(st_["rv"], at=(bi, si)), st_))
+        t_ = b["term"]
+        if t_["k"] == "call" and t_["dest"]["p"] and t_["dest"]["p"][-1].get("n") == "skip_document_code":
+            stores.append((bi, "term", None, t_))
+    carried = False
+    for bi, si, tree, st_ in stores:
+        if tree is None and si != "term":
+            op = st_["rv"].get("op") if st_["rv"].get("k") == "use" else None
+            tree = oc.operand(op) if op else None
+        if tree is None and si == "term":
+            from ..facts import Node
+            tree = Node("agg", ("args", None), [oc.operand(a) for a in st_["args"]])
+        if tree is not None and any(n.kind == "field" and n.a == "skip_document_code" and any(k.kind == "field" and k.a == "config" for k in n.walk()) and
+                                    any(k.kind == "arg" and k.a == 1 for k in n.walk()) for n in tree.walk()):
+            carried = True
+    from ..cfgq import aggregates as _aggs
+    for ab, asi, arv in _aggs(ct, "TestCaseConfig"):
+        if arv.get("fields") and "skip_document_code" in arv["fields"]:
+            tree = oc.operand(arv["ops"][arv["fields"].index("skip_document_code")])
+            stores.append((ab, asi, tree, None))
+            if any(n.kind == "field" and n.a == "skip_document_code" and any(k.kind == "arg" and k.a == 1 for k in n.walk()) for n in tree.walk()):
+                carried = True
+    ctx.check(carried, "script-skip-carried", ct.where(),
+              "compile_testcase copies the test cases' skip_document_code into the compiled test case's config (%d store(s))" % len(stores),
+              "compile_testcase never stores the test cases' skip_document_code into the compiled config (%d store(s) to that field): under Cram execution a custom "
+              "skip code of the document is ignored and the default applies" % len(stores))
+
 
 def _test_run(prog):
     return prog.fn("test::Args::run")
